@@ -12,9 +12,23 @@ connection runs `reuseConnection`, which is two atomic steps (the keyed RW mutex
   effects: close fresh / close cache / store / delete, result returned to the caller;
   an incoming end that returns an error closes the connection (`AcceptWithListener`, code 406);
 * `reap`  (`handlePeer` goroutine → `reapPeer`): once a connection that this end stored (returned as new) is
-  closed, the cache entry of the peer is deleted-and-closed, whatever it is.
+  closed, `reapPeer` runs for it: under the key's Lock it looks at the entry that is CACHED at that moment
+  (`loaded`), and — facts `reap loaded` extracted from `overlay/reaper.go` — closes the cached entry's
+  connection, closes the triggering connection, deletes the entry;
+* `reapE` the same for the close-watcher goroutine of the pre-existing connection `e` (every side that caches
+  `e` stored it in an earlier negotiation and therefore runs such a goroutine);
+* `late`  a STALE `reapPeer`: a second reap of an older connection `o` to the same peer that died and was
+  reaped long ago (the periodic `reaper()` collected `o` as a dead candidate while `o`'s close goroutine
+  reaped it too — `reapPeer` runs twice for `o`). It may run at any moment, at most once per side, and only on
+  sides where the scenario allows it (`lateP`/`lateQ`); whatever is cached for the peer at that moment is treated
+  by `reap loaded` like in an ordinary reap, although it is not the connection that triggered the reap.
+  Stale reaps are environment events: a state is `final` when no negotiation step and no due reap is left,
+  whether or not a stale reap is still possible.
 
-`snapshot` and `decide` are parameters (`Table`); `genTable` is the translation of the current Go source.
+Every connection remembers what closed it FIRST (`Cl`): the negotiation and its reaps (`neg`) or a stale reap
+(`late`); "a reused connection is never closed by the negotiation" is judged on `neg`.
+
+`snapshot`, `decide` and `reap` are parameters (`Table`); `genTable` is the translation of the current Go source.
 Core Lean only.
 -/
 namespace Specter.C41
@@ -49,8 +63,16 @@ def Proc.peer : Proc → Proc
 structure Table where
   snapshot : Bool → Dir → Dir → CState × Dir
   decide : CState → Dir → Bool → Dir → Dir → Bool → Dir → Act
+  reap : Bool → ReapAct
 
-def genTable : Table := ⟨Gen.C41.snapshot, Gen.C41.decide⟩
+def genTable : Table := ⟨Gen.C41.snapshot, Gen.C41.decide, Gen.C41.reap⟩
+
+/-- what closed a connection first -/
+inductive Cl where
+  | open
+  | neg     -- the negotiation (508), the accept loop (406) or a reap that follows the negotiation
+  | late    -- a stale reap
+deriving DecidableEq, Repr
 
 /-- what `reuseConnection` returned -/
 inductive Res where
@@ -71,13 +93,19 @@ structure St where
   dual : Bool
   cacheP : Entry
   cacheQ : Entry
-  closedE : Bool := false
-  closedC : Bool := false
-  closedD : Bool := false
+  clE : Cl := .open
+  clC : Cl := .open
+  clD : Cl := .open
   pPc : PC := .idle
   pQc : PC := .idle
   pQd : PC := .idle
   pPd : PC := .idle
+  /-- the close-watcher goroutine of the pre-existing connection `e` is still waiting at P / Q -/
+  watchP : Bool := false
+  watchQ : Bool := false
+  /-- a stale reap may still run at P / Q -/
+  lateP : Bool := false
+  lateQ : Bool := false
 deriving DecidableEq, Repr
 
 def St.pc (s : St) : Proc → PC
@@ -90,24 +118,36 @@ def St.cache (s : St) : Side → Entry
 def St.setCache (s : St) (x : Side) (v : Entry) : St :=
   match x with
   | .P => { s with cacheP := v } | .Q => { s with cacheQ := v }
-def St.closed (s : St) : Conn → Bool
-  | .e => s.closedE | .c => s.closedC | .d => s.closedD
-def St.close (s : St) : Conn → St
-  | .e => { s with closedE := true } | .c => { s with closedC := true } | .d => { s with closedD := true }
-def St.closeEntry (s : St) : Entry → St
-  | some (x, _) => s.close x
+def St.cl (s : St) : Conn → Cl
+  | .e => s.clE | .c => s.clC | .d => s.clD
+def St.closed (s : St) (x : Conn) : Bool := match s.cl x with | .open => false | _ => true
+/-- `CloseWithError`: only the first close of a connection counts -/
+def St.close (s : St) (by_ : Cl) (x : Conn) : St :=
+  match s.cl x with
+  | .open => (match x with | .e => { s with clE := by_ } | .c => { s with clC := by_ } | .d => { s with clD := by_ })
+  | _ => s
+def St.closeEntry (s : St) (by_ : Cl) : Entry → St
+  | some (x, _) => s.close by_ x
   | none => s
+def St.watch (s : St) : Side → Bool
+  | .P => s.watchP | .Q => s.watchQ
+def St.lateOk (s : St) : Side → Bool
+  | .P => s.lateP | .Q => s.lateQ
 
 def Proc.active (s : St) : Proc → Bool
   | .Pc | .Qc => true
   | .Qd | .Pd => s.dual
 
 inductive Step where
-  | snap (i : Proc) | dec (i : Proc) | reap (i : Proc)
+  | snap (i : Proc) | dec (i : Proc) | reap (i : Proc) | reapE (x : Side) | late (x : Side)
 deriving DecidableEq, Repr
 
 def allProcs : List Proc := [.Pc, .Qc, .Qd, .Pd]
-def allSteps : List Step := allProcs.map .snap ++ allProcs.map .dec ++ allProcs.map .reap
+/-- the steps of the negotiations and the reaps that are due after them -/
+def ownSteps : List Step := allProcs.map .snap ++ allProcs.map .dec ++ allProcs.map .reap ++ [.reapE .P, .reapE .Q]
+/-- … and the stale reaps -/
+def lateSteps : List Step := [.late .P, .late .Q]
+def allSteps : List Step := ownSteps ++ lateSteps
 
 def PC.status? : PC → Option (CState × Dir)
   | .idle => none
@@ -119,10 +159,23 @@ def enabled (s : St) : Step → Bool
   | .dec i => (match s.pc i with | .snapped _ _ => true | _ => false) &&
       (match s.pc i.peer with | .idle => false | _ => true)
   | .reap i => (match s.pc i with | .done _ .fresh false => true | _ => false) && s.closed i.conn
+  | .reapE x => s.watch x && s.closed .e
+  | .late x => s.lateOk x
 
 def entryDir : Entry → Dir
   | some (_, d) => d
   | none => .incoming      -- never read by the generated table when the entry is absent
+
+/-- `reapPeer` at side `x` (atomic: the key's Lock): `trigger` = the connection whose death started it (`none`
+for the stale reap of a connection outside the model, which is closed already), `by_` = what the closes count as -/
+def reapPeer (T : Table) (s : St) (x : Side) (trigger : Option Conn) (by_ : Cl) : St :=
+  let ent := s.cache x
+  let a := T.reap ent.isSome
+  let s := if a.closeCached then s.closeEntry by_ ent else s
+  let s := match a.closeTrigger, trigger with
+    | true, some q => s.close by_ q
+    | _, _ => s
+  if a.del then s.setCache x none else s
 
 def step (T : Table) (s : St) : Step → St
   | .snap i =>
@@ -134,8 +187,8 @@ def step (T : Table) (s : St) : Step → St
       let cur := s.cache i.side
       let act := T.decide ps pd snap.isSome (entryDir snap) i.dir cur.isSome (entryDir cur)
       let cacheVar : Entry := if act.reload then cur else snap
-      let s := if act.closeFresh then s.close i.conn else s
-      let s := if act.closeCache then s.closeEntry cacheVar else s
+      let s := if act.closeFresh then s.close .neg i.conn else s
+      let s := if act.closeCache then s.closeEntry .neg cacheVar else s
       let s := if act.del then s.setCache i.side none else s
       let s := match act.store with
         | .no => s
@@ -147,25 +200,31 @@ def step (T : Table) (s : St) : Step → St
         | _, _ => .err
       -- handleIncoming error ⇒ AcceptWithListener closes the connection (406)
       let s := match res, i.dir with
-        | .err, .incoming => s.close i.conn
+        | .err, .incoming => s.close .neg i.conn
         | _, _ => s
       s.setPc i (.done mine res false)
     | _, _ => s
   | .reap i =>
     match s.pc i with
     | .done st .fresh false =>
-      let s := s.closeEntry (s.cache i.side)       -- LoadAndDelete + CloseWithError(401)
-      let s := s.setCache i.side none
-      s.setPc i (.done st .fresh true)
+      (reapPeer T s i.side (some i.conn) .neg).setPc i (.done st .fresh true)
     | _ => s
+  | .reapE x =>
+    let s := reapPeer T s x (some .e) .neg
+    match x with
+    | .P => { s with watchP := false } | .Q => { s with watchQ := false }
+  | .late x =>
+    let s := reapPeer T s x none .late
+    match x with
+    | .P => { s with lateP := false } | .Q => { s with lateQ := false }
 
 /-- run an arbitrary list of step labels; labels that are not enabled are skipped -/
 def run (T : Table) (s : St) : List Step → St
   | [] => s
   | e :: l => if enabled s e then run T (step T s e) l else run T s l
 
-/-- nothing left to do: every negotiation finished, every due reap done -/
-def final (s : St) : Bool := (allSteps.filter (enabled s)).isEmpty
+/-- nothing left to do: every negotiation finished, every due reap done (a stale reap may still be possible) -/
+def final (s : St) : Bool := (ownSteps.filter (enabled s)).isEmpty
 
 /-! Evaluation helpers: `fX v k = k v` (lemmas `f*_eq` in Props), but reducing `fX v k` forces `v` to a
 constructor first. They keep the states of the exhaustive exploration small literal terms, which is what makes
@@ -176,6 +235,7 @@ def fB (b : Bool) (k : Bool → α) : α := match b with | true => k true | fals
 def fDir (d : Dir) (k : Dir → α) : α := match d with | .incoming => k .incoming | .outgoing => k .outgoing
 def fCState (cs : CState) (k : CState → α) : α := match cs with | .cached => k .cached | .fresh => k .fresh
 def fConn (x : Conn) (k : Conn → α) : α := match x with | .e => k .e | .c => k .c | .d => k .d
+def fCl (x : Cl) (k : Cl → α) : α := match x with | .open => k .open | .neg => k .neg | .late => k .late
 def fEntry (e : Entry) (k : Entry → α) : α :=
   match e with
   | none => k none
@@ -195,18 +255,20 @@ def fPC (p : PC) (k : PC → α) : α :=
   | .snapped e st => fEntry e fun e => fStatus st fun st => k (.snapped e st)
   | .done st r b => fStatus st fun st => fRes r fun r => fB b fun b => k (.done st r b)
 def fSt (s : St) (k : St → α) : α :=
-  fB s.dual fun a => fEntry s.cacheP fun b => fEntry s.cacheQ fun c => fB s.closedE fun d => fB s.closedC fun e =>
-  fB s.closedD fun f => fPC s.pPc fun g => fPC s.pQc fun h => fPC s.pQd fun i => fPC s.pPd fun j =>
-  k ⟨a, b, c, d, e, f, g, h, i, j⟩
+  fB s.dual fun a => fEntry s.cacheP fun b => fEntry s.cacheQ fun c => fCl s.clE fun d => fCl s.clC fun e =>
+  fCl s.clD fun f => fPC s.pPc fun g => fPC s.pQc fun h => fPC s.pQd fun i => fPC s.pPd fun j =>
+  fB s.watchP fun wp => fB s.watchQ fun wq => fB s.lateP fun lp => fB s.lateQ fun lq =>
+  k ⟨a, b, c, d, e, f, g, h, i, j, wp, wq, lp, lq⟩
 end force
 
-/-- exhaustive exploration of all maximal interleavings from `s` (fuel = bound on remaining steps) -/
+/-- exhaustive exploration of all interleavings from `s` (fuel = bound on remaining steps): `prop` is demanded in
+every final state on the way (stale reaps may still follow a final state) -/
 def explore (T : Table) (prop : St → Bool) : Nat → St → Bool
-  | 0, s => final s && prop s
+  | 0, s => (allSteps.filter (enabled s)).isEmpty && prop s
   | n+1, s =>
-    match allSteps.filter (enabled s) with
-    | [] => prop s
-    | en => en.all fun e => fSt (step T s e) fun s' => explore T prop n s'
+    match ownSteps.filter (enabled s) with
+    | [] => prop s && (lateSteps.filter (enabled s)).all fun e => fSt (step T s e) fun s' => explore T prop n s'
+    | en => (en ++ lateSteps.filter (enabled s)).all fun e => fSt (step T s e) fun s' => explore T prop n s'
 
 /-- the connection a side caches -/
 def St.cached (s : St) (x : Side) : Option Conn := (s.cache x).map (·.1)
@@ -217,10 +279,11 @@ def noSplitBrain (s : St) : Bool :=
   | some x, some y => x == y
   | _, _ => true
 
-/-- T2: a connection handed back as "reused" was not closed by the negotiation(s) -/
+/-- T2: a connection handed back as "reused" was not closed by the negotiation(s) (nor by a reap that follows
+them; a stale reap of an older connection is not part of the negotiation) -/
 def reusedNotClosed (s : St) : Bool :=
   allProcs.all fun i => match s.pc i with
-    | .done _ (.reused (some x)) _ => !s.closed x
+    | .done _ (.reused (some x)) _ => (match s.cl x with | .neg => false | _ => true)
     | _ => true
 
 /-- T3: a side caches a NEW connection only if the other side caches the same one -/
@@ -247,6 +310,11 @@ def preStates : List (Entry × Entry) :=
     (none, some (.e, .incoming)), (none, some (.e, .outgoing)),
     (some (.e, .outgoing), some (.e, .incoming)), (some (.e, .incoming), some (.e, .outgoing)) ]
 
-def init (dual : Bool) (pre : Entry × Entry) : St := { dual := dual, cacheP := pre.1, cacheQ := pre.2 }
+/-- which sides may see a stale reap: none, or one of the two -/
+def lateConfigs : List (Bool × Bool) := [(false, false), (true, false), (false, true)]
+
+def init (dual : Bool) (pre : Entry × Entry) (late : Bool × Bool := (false, false)) : St :=
+  { dual := dual, cacheP := pre.1, cacheQ := pre.2, watchP := pre.1.isSome, watchQ := pre.2.isSome,
+    lateP := late.1, lateQ := late.2 }
 
 end Specter.C41
